@@ -223,6 +223,15 @@ func programs() []*Program {
 		},
 		Cfg: func() *Config { return baseConfig("R") }})
 
+	// messages declared top-down (container before the types it nests): base of the C12 selections
+	add(&Program{Name: "P-order", Quick: true,
+		File: func() *FileSpec {
+			top := msg("Top", nil, mfld("M", "Mid"), mfld("L", "Leaf").rep(), fld("Own", TString))
+			mid := msg("Mid", nil, mfld("X", "Leaf").nonnull(), fld("Tag", TString))
+			return &FileSpec{Name: "p.proto", Msgs: []*M{top, mid, leafMsg()}}
+		},
+		Cfg: func() *Config { return baseConfig("Top", "Mid", "Leaf") }})
+
 	add(&Program{Name: "P-flags", Quick: true,
 		File: func() *FileSpec {
 			sub := msg("FlSub", nil, fld("X", TString).doc(" X of the sub message\n"), fld("Y", TString)).doc(" FlSub is nested\n")
